@@ -539,4 +539,175 @@ def rule_sharedfn(ctx):
     return r
 
 
-RULES = [rule_refresh, rule_keys, rule_assess, rule_fail, rule_presurv, rule_sharedfn]
+# ------------------------------------------------------------------ FAILSKIP / DRAWN
+
+def _subst(e, env):
+    """copy of expression ``e`` with names bound in ``env`` replaced by their (already substituted) definitions"""
+    class T(ast.NodeTransformer):
+        def visit_Name(self, n):
+            if isinstance(n.ctx, ast.Load) and n.id in env:
+                return env[n.id]
+            return n
+    import copy
+    return T().visit(copy.deepcopy(e))
+
+
+def _bool_atoms(e, out):
+    if isinstance(e, ast.BoolOp):
+        for v in e.values:
+            _bool_atoms(v, out)
+    elif isinstance(e, ast.UnaryOp) and isinstance(e.op, ast.Not):
+        _bool_atoms(e.operand, out)
+    elif isinstance(e, ast.Constant) and isinstance(e.value, bool):
+        pass
+    else:
+        out.setdefault(C.unparse(e, 400), e)
+
+
+def _bool_eval(e, val):
+    if isinstance(e, ast.BoolOp):
+        vs = [_bool_eval(v, val) for v in e.values]
+        return all(vs) if isinstance(e.op, ast.And) else any(vs)
+    if isinstance(e, ast.UnaryOp) and isinstance(e.op, ast.Not):
+        return not _bool_eval(e.operand, val)
+    if isinstance(e, ast.Constant) and isinstance(e.value, bool):
+        return e.value
+    return val[C.unparse(e, 400)]
+
+
+def _is_inf(e):
+    u = C.unparse(e).replace("'", '"')
+    return u in ('float("inf")', "math.inf", "inf", "np.inf", "numpy.inf")
+
+
+def _finite_atom(e, score_names):
+    """truth value of atom ``e`` when the trial's score is +inf, or None when the atom says nothing about it"""
+    if isinstance(e, ast.Compare) and len(e.ops) == 1:
+        l, op, r_ = e.left, e.ops[0], e.comparators[0]
+        if C.unparse(l) in score_names and _is_inf(r_):
+            return {ast.Lt: False, ast.NotEq: False, ast.Eq: True, ast.GtE: True, ast.LtE: True, ast.Gt: False}.get(type(op))
+        if C.unparse(r_) in score_names and _is_inf(l):
+            return {ast.Gt: False, ast.NotEq: False, ast.Eq: True, ast.LtE: True, ast.GtE: True, ast.Lt: False}.get(type(op))
+    if isinstance(e, ast.Call) and dotted(e.func) in ("math.isfinite", "isfinite", "np.isfinite") and e.args and C.unparse(e.args[0]) in score_names:
+        return False
+    if isinstance(e, ast.Call) and dotted(e.func) in ("math.isinf", "isinf", "np.isinf") and e.args and C.unparse(e.args[0]) in score_names:
+        return True
+    return None
+
+
+def rule_failskip(ctx):
+    """(seed C08_13) 'Trials that fail are skipped without affecting the others': a failed trial carries the score
+    +inf, and the sampling libraries are fed through `report_result` — an infinite target makes the next regressor
+    fit raise (skopt) on a *healthy* trial and aborts the search.  The statements of `_maybe_report_result` are
+    walked path by path with boolean locals substituted by their definitions; for every path that reaches the
+    report the conjunction of its branch conditions is evaluated under all truth assignments of its atoms with
+    the atoms about the score fixed to 'score is +inf': it must be unsatisfiable."""
+    r = RuleResult("C08-FAILSKIP", "a failed (infinite-score) trial is never reported to the sampling library", 1)
+    hc = ctx.p.cls(C.HYPER, "HyperOptimizer")
+    f = hc.lookup("_maybe_report_result")
+    C.require(f is not None, "_maybe_report_result not found")
+    params = [a.arg for a in f.node.args.args]
+    C.require(len(params) >= 3, "_maybe_report_result(self, setting, trial) expected")
+    trial = params[2]
+    score_names = {f'{trial}["score"]', f"{trial}['score']"}
+    reached = []
+
+    def is_report(st):
+        return any(isinstance(c, ast.Call) and "report_result" in C.unparse(c.func) for c in ast.walk(st))
+
+    def walk(stmts, env, conds):
+        for i, st in enumerate(stmts):
+            if isinstance(st, ast.Assign) and len(st.targets) == 1 and isinstance(st.targets[0], ast.Name):
+                v = _subst(st.value, env)
+                if C.unparse(v, 400).replace("'", '"') in {x.replace("'", '"') for x in score_names}:
+                    score_names.add(st.targets[0].id)
+                env = dict(env)
+                env[st.targets[0].id] = v
+            elif isinstance(st, ast.If):
+                t = _subst(st.test, env)
+                walk(list(st.body) + list(stmts[i + 1:]), env, conds + [(t, True)])
+                walk(list(st.orelse) + list(stmts[i + 1:]), env, conds + [(t, False)])
+                return
+            elif isinstance(st, (ast.Return, ast.Raise)):
+                return
+            elif isinstance(st, (ast.For, ast.While, ast.Try, ast.With)):
+                raise AnalysisError("_maybe_report_result: statement kind not handled by the path walk")
+            elif is_report(st):
+                reached.append((st, list(conds)))
+
+    walk(list(f.node.body), {}, [])
+    C.require(reached, "_maybe_report_result: call of report_result not found")
+    k = ctx.key(f, "C08-FAILSKIP")
+    bad = None
+    for st, conds in reached:
+        atoms = {}
+        for t, _ in conds:
+            _bool_atoms(t, atoms)
+        fixed = {a: _finite_atom(e, score_names) for a, e in atoms.items()}
+        free = [a for a, v in fixed.items() if v is None]
+        if len(free) > 12:
+            raise AnalysisError("_maybe_report_result: too many atoms")
+        import itertools
+        for vals in itertools.product((False, True), repeat=len(free)):
+            val = {a: v for a, v in fixed.items() if v is not None}
+            val.update(dict(zip(free, vals)))
+            if all(_bool_eval(t, val) == want for t, want in conds):
+                bad = (st, {a: val[a] for a in free})
+                break
+        if bad:
+            break
+    if bad:
+        r.violation(k, C.loc(f, bad[0]), "the report to the sampling library is reachable with an infinite score (a failed trial), e.g. when "
+                    + ", ".join(f"`{a[:50]}` is {v}" for a, v in bad[1].items()) + ": an optimizer library that rejects inf raises on the next "
+                    "healthy trial and the whole search aborts")
+    else:
+        r.ok(k, C.loc(f, reached[0][0]), f"{len(reached)} path(s) to the report: each requires a finite score")
+    return r
+
+
+_DROPPING = {"takewhile", "dropwhile", "filter", "filterfalse", "compress"}
+
+
+def rule_drawn(ctx):
+    """(seed C08_14) The generators record a trial (scores, costs, the sampling library) as they produce it; the best
+    is the arg-min of what was recorded only if every trial *drawn* from them reaches the comparison in `_search`.
+    The iterable of the assessment loop is traced through its definitions: it is the generator itself or a
+    pass-through wrapper (a progress bar, enumerate); a wrapper that may pull an item and drop it (takewhile,
+    filter, dropwhile, compress) loses a recorded trial."""
+    r = RuleResult("C08-DRAWN", "every trial drawn from the generators is compared with the best", 1)
+    hc = ctx.p.cls(C.HYPER, "HyperOptimizer")
+    f = hc.lookup("_search")
+    C.require(f is not None, "_search not found")
+    fl = ctx.flow(f)
+    loops = [n for n in walk_local(f.node) if isinstance(n, ast.For) and any(
+        isinstance(c, ast.Compare) and "best" in C.unparse(c) and "score" in C.unparse(c) for c in ast.walk(n))]
+    C.require(len(loops) == 1, "_search: assessment loop not found")
+    lp = loops[0]
+    head = fl.cfg.node_of(lp)
+    k = ctx.key(f, "C08-DRAWN")
+    bad = None
+    seen = set()
+    work = [(lp.iter, head.id)]
+    n_defs = 0
+    while work:
+        e, at = work.pop()
+        for c in ast.walk(e):
+            if isinstance(c, ast.Call) and (dotted(c.func) or "").split(".")[-1] in _DROPPING:
+                bad = c
+        for nm in [x for x in ast.walk(e) if isinstance(x, ast.Name)]:
+            for d in fl.defs_reaching(nm.id, at):
+                if d.kind != "assign" or d.value is None or id(d) in seen:
+                    continue
+                seen.add(id(d))
+                n_defs += 1
+                work.append((d.value, d.node))
+    if bad is not None:
+        r.violation(k, C.loc(f, bad), f"`{C.unparse(bad, 70)}` stands between the generators and the assessment loop: it pulls a trial — which the "
+                    "generator has already recorded — before deciding to drop it, so the best can differ from the arg-min of the "
+                    "recorded scores")
+    else:
+        r.ok(k, C.loc(f, lp), f"the loop iterates the generators through pass-through wrappers only ({n_defs} definitions traced)")
+    return r
+
+
+RULES = [rule_failskip, rule_drawn, rule_refresh, rule_keys, rule_assess, rule_fail, rule_presurv, rule_sharedfn]
